@@ -88,6 +88,18 @@ class SimStream:
         return chunk
 
 
+class SimStreamRI(SimStream):
+    """a stream that also offers readinto(), as real files and io.BytesIO do"""
+
+    def readinto(self, buf):
+        mv = memoryview(buf).cast('B')
+        chunk = self.read(len(mv))
+        if not isinstance(chunk, (bytes, bytearray)):
+            return chunk        # the wrong-type fault: hand it on as it is
+        mv[:len(chunk)] = chunk
+        return len(chunk)
+
+
 # ----------------------------------------------------------------------------- world
 
 class SM:
@@ -225,7 +237,10 @@ def gen_op(rng, w):
         M = w.objs[w.names[t][0]]['M']
         total = M.m * M.n * ITEM[M.tc][1]
         f = rng.choice([None, None, ['eof', rng.randint(0, total)], ['eof', max(0, total - 1)], ['read_oserror'], ['read_str'], ['write_oserror']])
-        return ['file', w.fresh(), t, f]
+        if rng.random() < 0.4:
+            # write the owner out, change it, read it back into the same (possibly exported, possibly aliased) object
+            return ['file', w.fresh(), t, f, 'self', rng.choice(['sim', 'readinto', 'bytesio'])]
+        return ['file', w.fresh(), t, f, 'fresh', rng.choice(['sim', 'sim', 'readinto'])]
     return gen_import(rng, w)
 
 
@@ -557,7 +572,39 @@ def apply(op, w, stats, rngless=None):
         oid, X = w.names[op[2]]
         M = w.objs[oid]['M']
         fault = op[3]
-        st = SimStream(fault)
+        mode = op[4] if len(op) > 4 else 'fresh'
+        skind = op[5] if len(op) > 5 else 'sim'
+        if skind == 'bytesio':
+            fault = None           # a real in-memory file: no fault to inject
+        st = SimStreamRI(fault) if skind == 'readinto' else SimStream(fault)
+        if mode == 'self':
+            exc = None
+            written = list(M.v)
+            bio = io.BytesIO() if skind == 'bytesio' else None
+            try:
+                X.tofile(bio if bio is not None else st)
+                if M.m * M.n > 0:
+                    X[0] = X[0] + 1
+                    M.v[0] = M.v[0] + 1
+                if bio is not None:
+                    bio.seek(0)
+                X.fromfile(bio if bio is not None else st)
+            except (OSError, EOFError, TypeError) as ex:
+                exc = ex
+            except Exception as ex:    # noqa
+                raise Mismatch('undocumented-exception', 'tofile/fromfile raised %s(%s) under fault %r' % (type(ex).__name__, ex, fault), op='file')
+            if st.fired:
+                bump('fault.stream.' + fault[0])
+                w.flags.add('stream_fault_fired')
+            if exc is None:
+                M.v[:] = written          # read back: the owner (and every alias and view of it) shows what was written
+            elif not st.fired:
+                raise Mismatch('unexpected-exception', 'fault-free tofile/fromfile raised %s(%s)' % (type(exc).__name__, exc), op='file')
+            bump('probe.fromfile_into_existing_owner')
+            if any(vv['oid'] == oid and not vv['released'] for vv in w.views.values()):
+                bump('probe.fromfile_into_exported_owner')
+                w.flags.add('mut_while_exported')
+            return
         T = matrix([MDL.conv(9, M.tc)] * (M.m * M.n), (M.m, M.n), M.tc)      # target with known contents
         TM = MDL.MM(M.tc, M.m, M.n, [9] * (M.m * M.n))
         exc = None
